@@ -10,7 +10,15 @@ Strata
   conc     VLoop with the deferred executor: several sender tasks, executor compressions completed in an order chosen
            by the schedule, the wire stalled/unstalled (drain path), one sender cancelled at every schedule step;
            oracle: the received sequence is a linearisation (every completed send exactly once, program order per
-           sender, payloads intact by embedded ids; a cancelled send is open: 0 or 1 occurrences, intact if present).
+           sender, a send that returned before another was called is received first, payloads intact by embedded ids;
+           a cancelled send is open: 0 or 1 occurrences, intact if present).
+           Cancellation plans: besides one cancellation at every schedule step, senders are cancelled *several times*
+           (the same sender again at the same instant, one/two/three steps later or much later; two or three senders)
+           with the first cancellation placed at every kind of await point the uncancelled run passes through (not yet
+           started, waiting for the lock, waiting for the shielded send with and without an executor job in flight,
+           in drain); a cancelled sender goes on with the rest of its program, and after the schedule has drained a
+           tail sender sends more messages on the same writer (small ones that refer back into the shared history,
+           one above the executor threshold): the oracle must hold for every completed send and every later message.
   flow     the wire honours pause_reading (MemPipe) and a consumer task reads through ``WebSocketDataQueue.read``;
            dribbled segmentations; every sent message must arrive.
 """
@@ -36,13 +44,16 @@ LEVEL_TEXT = (
     "MiBs, masked/unmasked, wbits 9..15/off, takeover/no takeover, per-message override, decode_text on/off) are sent "
     "through the real writer and received through the real reader under whole / byte-at-a-time / random segmentations; "
     "concurrent senders are run under explicit schedules (executor completion order, wire stalls, a cancellation at every "
-    "schedule step) and the received sequence is checked to be a linearisation. Says: held on these sequences and "
+    "schedule step, plans of 2..4 cancellations with the same sender cancelled again at every kind of await point - also "
+    "while an executor job is in flight -, more traffic from the cancelled senders and from a tail sender afterwards) "
+    "and the received sequence is checked to be a linearisation. Says: held on these sequences and "
     "schedules; nothing about unexplored ones."
 )
 RULE = (
     "seq: random configuration x 1..8 messages with sizes from the threshold list x 3 segmentations; conc: 2..4 senders "
     "x 2..4 messages (at least one above the 16 KiB executor threshold) x random schedule x (no cancel + cancel of one "
-    "sender at every schedule step); flow: dribbled wire honouring pause_reading; a case = one (configuration, message "
+    "sender at every schedule step + plans of 2..4 cancellations, the first at every kind of await point of the "
+    "uncancelled run, the same sender again 0..3 steps or much later) + a tail sender after quiescence; flow: dribbled wire honouring pause_reading; a case = one (configuration, message "
     "sequence, segmentation or schedule); non-trivial = at least one frame reached the reader (seq/flow) or at least two "
     "senders overlapped in send_frame (conc); distinct = distinct (configuration, payload digest list, segmentation/schedule)"
 )
@@ -613,6 +624,7 @@ def await_point(task) -> str:
     if "acquire" in names:
         return "lock"
     if names[-1] == "send_frame":
+        # waiting for the separately running compress-and-send task (shielded or not is the writer's business)
         return "shield"
     if names[-1] == "sender":
         return "ready"
@@ -635,12 +647,41 @@ def gen_schedule(rng, nsenders):
     return ev
 
 
-def run_concurrent(L, cfg, progs, schedule, cancel_at, seg_seed):
-    """cancel_at: None or (step index, sender).  Returns observation dict."""
+def norm_cancels(cancel_at):
+    """None | (step, sender) | [(step, sender), ...]  ->  sorted list of (step, sender)"""
+    if not cancel_at:
+        return []
+    if isinstance(cancel_at[0], int):
+        return [tuple(cancel_at)]
+    return sorted((tuple(c) for c in cancel_at), key=lambda c: c[0])
+
+
+def make_tail(rng, ns: int, cfg):
+    """messages sent on the same writer after everything else has drained: small ones that repeat the phrases of the
+    earlier traffic (under context takeover they are encoded as references into the shared history), one above the
+    executor threshold, a control frame"""
+    tail = []
+    shapes = [("binary", 300, "phrase"), ("text", rng.choice([125, 4000]), "phrase"), ("binary", rng.choice([SYNC_THRESHOLD + 1, 20000]), rng.choice(["phrase", "utf8"])), ("ping", 60, "phrase"), ("text", 126, "utf8")]
+    rng.shuffle(shapes)
+    for q, (kind, size, style) in enumerate(shapes[: rng.randint(3, 5)]):
+        prefix = b"<S%d:%d:%d>" % (ns, q, size)
+        body = prefix + make_body(rng, size, kind, style)[len(prefix) :]
+        if kind == "text" and not W.utf8_valid(body):
+            body = prefix + b"x" * (size - len(prefix))
+        tail.append({"kind": kind, "body": body, "ov": None})
+    return tail
+
+
+def run_concurrent(L, cfg, progs, schedule, cancel_at, seg_seed, tail=None, trace=False):
+    """cancel_at: None, (step index, sender) or a list of such pairs (a sender may appear several times).
+    tail: program of one more sender that starts when everything else has drained.  Returns observation dict."""
     asyncio = L["asyncio"]
     loop = L["XLoop"]()
     loop.defer_executor = True
-    obs = {"status": {}, "points": [], "overlap": 0}
+    obs = {"status": {}, "points": [], "overlap": 0, "span": {}, "trace": []}
+    cancels = norm_cancels(cancel_at)
+    allprogs = list(progs) + ([tail] if tail else [])
+    clock = [0]
     try:
         pipe = L["MemPipe"](loop)
         pa = L["BaseProtocol"](loop)
@@ -660,14 +701,18 @@ def run_concurrent(L, cfg, progs, schedule, cancel_at, seg_seed):
         inflight = [0]
 
         async def sender(s):
-            for q, m in enumerate(progs[s]):
+            for q, m in enumerate(allprogs[s]):
                 status[(s, q)] = "started"
+                clock[0] += 1
+                obs["span"][(s, q)] = [clock[0], None]
                 inflight[0] += 1
                 if inflight[0] > 1:
                     obs["overlap"] += 1
                 try:
                     await w.send_frame(m["body"], OPC[m["kind"]], m["ov"])
                     status[(s, q)] = "completed"
+                    clock[0] += 1
+                    obs["span"][(s, q)][1] = clock[0]
                 except asyncio.CancelledError:
                     status[(s, q)] = "cancelled"
                 except Exception as e:  # noqa
@@ -682,11 +727,16 @@ def run_concurrent(L, cfg, progs, schedule, cancel_at, seg_seed):
 
         tasks = [loop.create_task(sender(s)) for s in range(len(progs))]
         cons = loop.create_task(consumer())
+        ci = 0
         for i, ev in enumerate(schedule):
-            if cancel_at is not None and cancel_at[0] == i:
-                t = tasks[cancel_at[1]]
+            if trace:
+                jobs = loop.pending_jobs()
+                obs["trace"].append(tuple("done" if t.done() else await_point(t) + ("+job" if jobs else "") for t in tasks))
+            while ci < len(cancels) and cancels[ci][0] <= i:
+                t = tasks[cancels[ci][1]]
+                ci += 1
                 if not t.done():
-                    obs["points"].append(await_point(t))
+                    obs["points"].append(await_point(t) + ("+job" if loop.pending_jobs() else ""))
                     t.cancel()
                 else:
                     obs["points"].append("done")
@@ -709,6 +759,14 @@ def run_concurrent(L, cfg, progs, schedule, cancel_at, seg_seed):
             if not loop.complete_job(0):
                 break
         loop.run(max_iters=50000)
+        if tail:
+            # more traffic on the same writer once everything else is over (executor jobs complete in FIFO order)
+            tasks.append(loop.create_task(sender(len(progs))))
+            for _ in range(200):
+                loop.run(max_iters=20000)
+                if not loop.complete_job(0):
+                    break
+            loop.run(max_iters=50000)
         obs["senders_done"] = all(t.done() for t in tasks)
         obs["sender_exc"] = [repr(t.exception()) for t in tasks if t.done() and not t.cancelled() and t.exception() is not None]
         obs["background_left"] = len(w._background_tasks)
@@ -779,6 +837,29 @@ def check_linearisation(cfg, progs, obs, seq, source: str):
                 v.append((f"{source}:program-order", f"S{s}:{q} received at {occ[0]}, an earlier completed message of the sender at {last}"))
             if status.get((s, q)) == "completed":
                 last = max(last, occ[0])
+    # real-time order: a send that had returned before another send was called is received before it
+    span = obs.get("span") or {}
+    done = sorted((sp[1], k) for k, sp in span.items() if sp[1] is not None and pos.get(k))
+    if done:
+        best_end, best_pos, best_k = [], [], []  # prefix maxima of the received position over sends ordered by return time
+        mp, mk = -1, None
+        for end, k in done:
+            if pos[k][0] > mp:
+                mp, mk = pos[k][0], k
+            best_end.append(end)
+            best_pos.append(mp)
+            best_k.append(mk)
+        import bisect
+
+        for k, sp in span.items():
+            occ = pos.get(k)
+            if not occ:
+                continue
+            j = bisect.bisect_left(best_end, sp[0]) - 1
+            if j >= 0 and best_pos[j] > occ[0] and best_k[j] != k:
+                a = best_k[j]
+                v.append((f"{source}:real-time-order", f"S{a[0]}:{a[1]} had returned before S{k[0]}:{k[1]} was sent, yet it is received later (positions {best_pos[j]} and {occ[0]})"))
+                break
     return v
 
 
@@ -790,9 +871,11 @@ def _first_diff(a: bytes, b: bytes) -> int:
     return n
 
 
-def check_concurrent(cfg, progs, schedule, cancel_at, seg_seed, rec, ctx):
+def check_concurrent(cfg, progs, schedule, cancel_at, seg_seed, rec, ctx, tail=None, trace=False):
     L = _load()
-    obs = run_concurrent(L, cfg, progs, schedule, cancel_at, seg_seed)
+    obs = run_concurrent(L, cfg, progs, schedule, cancel_at, seg_seed, tail, trace)
+    if tail:
+        progs = list(progs) + [tail]
     v = []
     if not obs["senders_done"]:
         v.append(("conc:sender-never-finished", f"status={obs['status']}"))
@@ -829,6 +912,21 @@ def check_concurrent(cfg, progs, schedule, cancel_at, seg_seed, rec, ctx):
     rec.case((ctx, sorted(cfg.items()), [digest(p) for p in progs], schedule, cancel_at, seg_seed), nontrivial)
     st = obs["status"]
     rec.count("conc-runs")
+    cancels = norm_cancels(cancel_at)
+    if len(cancels) > 1:
+        rec.count("conc-runs-with-several-cancellations")
+        rec.count(f"cancellations-per-run:{len(cancels)}")
+        per = {}
+        for _, s_ in cancels:
+            per[s_] = per.get(s_, 0) + 1
+        if max(per.values()) > 1:
+            rec.count("same-sender-cancelled-again")
+        live = [p for p in obs["points"] if p != "done"]
+        if len(live) > 1:
+            rec.count("several-cancellations-hit-a-live-sender")
+    if tail:
+        ns_ = len(progs) - 1
+        rec.count("tail-sends-completed", sum(1 for k_, x in st.items() if k_[0] == ns_ and x == "completed"))
     rec.count("conc-sends-completed", sum(1 for x in st.values() if x == "completed"))
     rec.count("conc-sends-cancelled", sum(1 for x in st.values() if x == "cancelled"))
     for p in obs["points"]:
@@ -847,9 +945,49 @@ def check_concurrent(cfg, progs, schedule, cancel_at, seg_seed, rec, ctx):
         rec.violation(
             mech,
             f"[{ctx}] cfg={cfg} cancel_at={cancel_at}: {summ}",
-            {"stratum": ctx, "cfg": cfg, "progs": progs, "schedule": schedule, "cancel_at": cancel_at, "seg_seed": seg_seed},
+            {"stratum": ctx, "cfg": cfg, "progs": progs[:-1] if tail else progs, "tail": tail, "schedule": schedule, "cancel_at": cancel_at, "seg_seed": seg_seed},
         )
     return v, obs
+
+
+def cancel_plans(rng, trace, ns: int, nsteps: int, dense: bool):
+    """Plans of several cancellations for one base case.  trace[i][s] = await point of sender s before schedule step i
+    in the uncancelled run.  The first cancellation of a plan is placed at every kind of await point each sender passes
+    through; the same sender is cancelled again at the same instant, 1..3 steps later and much later; further plans
+    cancel two or three different senders, or one sender three/four times."""
+    plans = []
+    seen = set()
+
+    def add(p):
+        p = sorted(p)
+        k = tuple(p)
+        if k not in seen and all(0 <= st < nsteps for st, _ in p):
+            seen.add(k)
+            plans.append([list(c) for c in p])
+
+    for s in range(ns):
+        by_point = {}
+        for i, row in enumerate(trace):
+            by_point.setdefault(row[s], []).append(i)
+        for point, steps in sorted(by_point.items()):
+            if point == "done":
+                continue
+            picks = {steps[0], rng.choice(steps)}
+            if dense:
+                picks.update(rng.sample(steps, min(3, len(steps))))
+            for i in sorted(picks):
+                deltas = [0, 1, 2, 3] if dense else [rng.choice([0, 1]), rng.choice([2, 3])]
+                for d in deltas:
+                    add([(i, s), (i + d, s)])
+                if i + 4 < nsteps:
+                    add([(i, s), (rng.randrange(i + 4, nsteps), s)])
+                if rng.random() < (0.6 if dense else 0.3):
+                    j = min(nsteps - 1, i + rng.randint(1, 3))
+                    add([(i, s), (j, s), (min(nsteps - 1, j + rng.randint(0, 4)), s)])
+    for _ in range(6 if dense else 3):  # several senders, several times
+        k = rng.randint(2, 4)
+        add([(rng.randrange(nsteps), rng.randrange(ns)) for _ in range(k)])
+    return plans
 
 
 def _id_of(k):
@@ -1038,7 +1176,8 @@ def _run_shard(spec, rec):
             progs = conc_programs(rng, ns, cfg, stratum)
             schedule = gen_schedule(rng, ns)
             seg_seed = rng.randrange(1 << 30)
-            v, obs = check_concurrent(cfg, progs, schedule, None, seg_seed, rec, kind)
+            tail = make_tail(rng, ns, cfg)
+            v, obs = check_concurrent(cfg, progs, schedule, None, seg_seed, rec, kind, tail, trace=True)
             if i % 7 == 0:
                 rec.sample({"stratum": kind, "cfg": cfg, "senders": [[(m["kind"], len(m["body"]), m["ov"]) for m in p] for p in progs], "schedule": schedule[:12], "received_order": [str(_id_of(k)) for k in obs["received"]], "violations": [m for m, _ in v]})
             # cancel one sender at every schedule step
@@ -1046,7 +1185,13 @@ def _run_shard(spec, rec):
                 for s in range(ns):
                     if (step + s + i) % (1 if tier != "quick" else 2):
                         continue
-                    check_concurrent(cfg, progs, schedule, (step, s), seg_seed, rec, kind)
+                    check_concurrent(cfg, progs, schedule, (step, s), seg_seed, rec, kind, tail)
+            # several cancellations, the first at every kind of await point of the uncancelled run
+            for p in cancel_plans(rng, obs["trace"], ns, len(schedule), tier != "quick"):
+                check_concurrent(cfg, progs, schedule, p, seg_seed, rec, kind, tail)
+            for row in obs["trace"]:
+                for pt in row:
+                    rec.count("await-point-in-uncancelled-run:" + pt)
         rec.set_exhaustive("cancel of each sender at every schedule step (thorough) / every second (sender, step) pair (quick)", True)
     elif kind == "flow":
         for i in range(spec["n"]):
@@ -1099,7 +1244,9 @@ def replay(witness, rec):
         check_sequential(w["cfg"], w["msgs"], rec, rng, "quick", st)
     elif st.startswith("conc"):
         sched = [tuple(e) for e in w["schedule"]]
-        ca = tuple(w["cancel_at"]) if w["cancel_at"] else None
-        check_concurrent(w["cfg"], w["progs"], sched, ca, w["seg_seed"], rec, st)
+        ca = w["cancel_at"] if w["cancel_at"] else None
+        if ca and isinstance(ca[0], int):
+            ca = tuple(ca)
+        check_concurrent(w["cfg"], w["progs"], sched, ca, w["seg_seed"], rec, st, w.get("tail"))
     else:
         check_flow(w["cfg"], w["msgs"], w["seg_mode"], w["maxseg"], w["lag"], w["seg_seed"], rec, st)
